@@ -219,7 +219,7 @@ def ltf_plan(**args):
     for j in range(nf):
         L_j = int(L_arr[j])
         L_arr[j] = L_j
-        averages = int(round_half_up(((N - L_j) / (1 - olap)) / L_j + 1))
+        averages = int(round_half_up((N - L_j) / (xov * L_j) + 1))
         averages = min(averages, N - L_j + 1)
         navg_arr.append(averages)
 
